@@ -111,8 +111,12 @@ func (ts *treeStorage) Remove(id TreeID) {
 		case <-timer.C:
 			verifAt("treestorage.timerFired", ts, id)
 			ts.Lock()
-			delete(ts.trees, id)
-			delete(ts.cancellations, id)
+			// only remove the tree if this removal has not been cancelled
+			// between the timer firing and the lock being taken
+			if ts.cancellations[id] == c {
+				delete(ts.trees, id)
+				delete(ts.cancellations, id)
+			}
 			ts.Unlock()
 			verifAt("treestorage.timerDone", ts, id)
 		case <-c:
